@@ -1,10 +1,23 @@
 import Infretis.Model.Proto
 import Infretis.Model.Template
+import Infretis.Model.TemplateCp2k
+import Infretis.Model.Codec
+import Infretis.Model.CodecLmp
 open Infretis.Proto
 
-/-- dispatch over the part models of C19 (each answers `none` for ops that are not its own) -/
+/-- dispatch over the part models of C19 (each answers `none` for ops that are not its own):
+    `mdp…`/`wfr…` Template, `cp2k…` TemplateCp2k, `g96…`/`xyz…` Codec, `lmp…`/`trr…` CodecLmp -/
 def handle (toks : List String) : String :=
   match Infretis.Template.handle toks with
+  | some r => r
+  | none =>
+  match Infretis.Cp2k.handle toks with
+  | some r => r
+  | none =>
+  match Infretis.Codec.handle toks with
+  | some r => r
+  | none =>
+  match Infretis.Lmp.handle toks with
   | some r => r
   | none => "bad-op"
 
